@@ -308,10 +308,22 @@ func batchLine(b []kv) string {
 // direct drives StateDB.GetAccountAndProof and StateDB.GetVarAndProof on the LIVE instance (positioned at the
 // latest root) for every account / contract, variable, block and encoding, and replays the account trie and every
 // storage trie on the Lean model (getAccountProof / getVarProof of Model/TrieCompress.lean).
-func (w *cworld) direct() {
+//
+// sdb is the instance asked: the quiescent live StateDB, or a block state in mid-execution whose buffers hold NEWER
+// uncommitted versions of the accounts and variables (label says which); the expectations are the committed
+// snapshots in every case. latestOK: a request without root is meaningful (the instance's trie root is the last
+// committed root). All proofs of one block are produced first and HELD, then judged (GetStateQuery holds them too).
+func (w *cworld) direct(sdb *statedb.StateDB, label string, latestOK bool) {
 	run := w.run
-	sdb := w.csdb.GetStateDB()
 	last := len(w.snaps) - 1
+	run.Count("instance asked: " + label)
+	var held []func()
+	flush := func() {
+		for _, f := range held {
+			f()
+		}
+		held = nil
+	}
 	// ---- the account trie, block by block; the model remembers the latest one as the instance's position
 	s := &sess{run: run, ref: map[string][]byte{}}
 	s.op("new", "ok", false)
@@ -339,7 +351,7 @@ func (w *cworld) direct() {
 			id := types.ToAccountID(addr)
 			for _, compressed := range []bool{false, true} {
 				for _, mode := range []string{"req", "latest"} {
-					if mode == "latest" && si != 0 {
+					if mode == "latest" && (si != 0 || !latestOK) {
 						continue // one pass is enough: the request names no root
 					}
 					at := sn
@@ -352,43 +364,46 @@ func (w *cworld) direct() {
 					} else {
 						at = w.snaps[last]
 					}
-					what := fmt.Sprintf("GetAccountAndProof(account #%d, block #%d of %d root=%s, compressed=%v) on the instance at the latest root", ai, si, len(w.snaps), mode, compressed)
-					rp := map[string]interface{}{"account": ai, "block": si, "root": mode, "compressed": compressed, "stateRoot": hx(at.root)}
+					what := fmt.Sprintf("GetAccountAndProof(account #%d, block #%d of %d root=%s, compressed=%v) on the instance [%s]", ai, si, len(w.snaps), mode, compressed, label)
+					rp := map[string]interface{}{"account": ai, "block": si, "root": mode, "compressed": compressed, "stateRoot": hx(at.root), "instance": label}
 					var pr *types.AccountProof
 					var err error
 					if _, p := vh.Guard(func() string { pr, err = sdb.GetAccountAndProof(id[:], reqRoot, compressed); return "" }); p || err != nil || pr == nil {
 						run.Fail(fmt.Sprintf("%s: panic=%v error=%v", what, p, err), w.replay(rp))
 						continue
 					}
-					run.Eval(what+w.desc, true)
-					st, exists := at.acct[string(addr)]
-					run.Count(fmt.Sprintf("account-proof(live) exists=%v compressed=%v root=%s", exists, compressed, mode))
-					if pr.GetInclusion() != exists {
-						run.Fail(fmt.Sprintf("%s: inclusion=%v, exists at that root=%v", what, pr.GetInclusion(), exists), w.replay(rp))
-						continue
-					}
-					if exists && (pr.GetState().GetNonce() != st.GetNonce() || !bytes.Equal(pr.GetState().GetBalance(), st.GetBalance()) || !bytes.Equal(pr.GetState().GetStorageRoot(), st.GetStorageRoot())) {
-						run.Fail(what+": the state returned is not the state stored at that root", w.replay(rp))
-						continue
-					}
-					if msg := walletAcct(pr, id[:], at.root, compressed); msg != "" {
-						run.Fail(what+": "+msg, w.replay(rp))
-						continue
-					}
-					pv := pr.GetProofVal()
-					if pr.GetInclusion() {
-						buf, _ := statedb.Marshal(pr.GetState())
-						pv = common.Hasher(buf)
-					}
-					head := fmt.Sprintf("inc=%v pk=%s pv=%s", pr.GetInclusion(), hx(pr.GetProofKey()), hx(pv))
-					if compressed {
-						s.op(fmt.Sprintf("acctprovec %x %s", id[:], mode), fmt.Sprintf("nproofc %s bitmap=%s len=%d ap=%s", head, hx(pr.GetBitmap()), pr.GetHeight(), hxl(pr.GetAuditPath())), true)
-					} else {
-						s.op(fmt.Sprintf("acctprove %x %s", id[:], mode), fmt.Sprintf("nproof %s ap=%s", head, hxl(pr.GetAuditPath())), true)
-					}
+					held = append(held, func() {
+						run.Eval(what+w.desc, true)
+						st, exists := at.acct[string(addr)]
+						run.Count(fmt.Sprintf("account-proof(live) exists=%v compressed=%v root=%s", exists, compressed, mode))
+						if pr.GetInclusion() != exists {
+							run.Fail(fmt.Sprintf("%s: inclusion=%v, exists at that root=%v", what, pr.GetInclusion(), exists), w.replay(rp))
+							return
+						}
+						if exists && (pr.GetState().GetNonce() != st.GetNonce() || !bytes.Equal(pr.GetState().GetBalance(), st.GetBalance()) || !bytes.Equal(pr.GetState().GetStorageRoot(), st.GetStorageRoot())) {
+							run.Fail(what+": the state returned is not the state stored at that root", w.replay(rp))
+							return
+						}
+						if msg := walletAcct(pr, id[:], at.root, compressed); msg != "" {
+							run.Fail(what+": "+msg, w.replay(rp))
+							return
+						}
+						pv := pr.GetProofVal()
+						if pr.GetInclusion() {
+							buf, _ := statedb.Marshal(pr.GetState())
+							pv = common.Hasher(buf)
+						}
+						head := fmt.Sprintf("inc=%v pk=%s pv=%s", pr.GetInclusion(), hx(pr.GetProofKey()), hx(pv))
+						if compressed {
+							s.op(fmt.Sprintf("acctprovec %x %s", id[:], mode), fmt.Sprintf("nproofc %s bitmap=%s len=%d ap=%s", head, hx(pr.GetBitmap()), pr.GetHeight(), hxl(pr.GetAuditPath())), true)
+						} else {
+							s.op(fmt.Sprintf("acctprove %x %s", id[:], mode), fmt.Sprintf("nproof %s ap=%s", head, hxl(pr.GetAuditPath())), true)
+						}
+					})
 				}
 			}
 		}
+		flush()
 	}
 	// ---- every contract's storage trie
 	for ci, addr := range w.contracts {
@@ -409,43 +424,46 @@ func (w *cworld) direct() {
 			for vi, name := range w.vars {
 				want, present := sn.stor[string(addr)][string(name)]
 				for _, compressed := range []bool{false, true} {
-					what := fmt.Sprintf("GetVarAndProof(contract #%d, variable #%d, block #%d of %d, compressed=%v)", ci, vi, si, len(w.snaps), compressed)
-					rp := map[string]interface{}{"contract": ci, "variable": string(name), "block": si, "compressed": compressed, "storageRoot": hx(sroot)}
+					what := fmt.Sprintf("GetVarAndProof(contract #%d, variable #%d, block #%d of %d, compressed=%v) on the instance [%s]", ci, vi, si, len(w.snaps), compressed, label)
+					rp := map[string]interface{}{"contract": ci, "variable": string(name), "block": si, "compressed": compressed, "storageRoot": hx(sroot), "instance": label}
 					var pr *types.ContractVarProof
 					var err error
 					if _, p := vh.Guard(func() string { pr, err = sdb.GetVarAndProof(varKey(name), sroot, compressed); return "" }); p {
 						run.Fail(what+": panic", w.replay(rp))
 						continue
 					}
-					run.Eval(what+w.desc, true)
-					kind := "absent"
-					if present {
-						kind = "present"
-					} else if si > 0 {
-						if _, was := w.snaps[si-1].stor[string(addr)][string(name)]; was {
-							kind = "deleted"
+					held = append(held, func() {
+						run.Eval(what+w.desc, true)
+						kind := "absent"
+						if present {
+							kind = "present"
+						} else if si > 0 {
+							if _, was := w.snaps[si-1].stor[string(addr)][string(name)]; was {
+								kind = "deleted"
+							}
 						}
-					}
-					if len(sroot) == 0 {
-						kind = "nil-storage-root"
-					}
-					run.Count(fmt.Sprintf("var-proof %s compressed=%v historical=%v", kind, compressed, si != last))
-					if !w.judgeVar(what, pr, err, name, sroot, want, present, compressed, rp) {
-						continue
-					}
-					// model: the trie-level content of the answer
-					pv := pr.GetProofVal()
-					if pr.GetInclusion() {
-						pv = common.Hasher(pr.GetValue())
-					}
-					head := fmt.Sprintf("inc=%v pk=%s pv=%s", pr.GetInclusion(), hx(pr.GetProofKey()), hx(pv))
-					if compressed {
-						s.op("varprovec "+hx(varKey(name)), fmt.Sprintf("nproofc %s bitmap=%s len=%d ap=%s", head, hx(pr.GetBitmap()), pr.GetHeight(), hxl(pr.GetAuditPath())), true)
-					} else {
-						s.op("varprove "+hx(varKey(name)), fmt.Sprintf("nproof %s ap=%s", head, hxl(pr.GetAuditPath())), true)
-					}
+						if len(sroot) == 0 {
+							kind = "nil-storage-root"
+						}
+						run.Count(fmt.Sprintf("var-proof %s compressed=%v historical=%v", kind, compressed, si != last))
+						if !w.judgeVar(what, pr, err, name, sroot, want, present, compressed, rp) {
+							return
+						}
+						// model: the trie-level content of the answer
+						pv := pr.GetProofVal()
+						if pr.GetInclusion() {
+							pv = common.Hasher(pr.GetValue())
+						}
+						head := fmt.Sprintf("inc=%v pk=%s pv=%s", pr.GetInclusion(), hx(pr.GetProofKey()), hx(pv))
+						if compressed {
+							s.op("varprovec "+hx(varKey(name)), fmt.Sprintf("nproofc %s bitmap=%s len=%d ap=%s", head, hx(pr.GetBitmap()), pr.GetHeight(), hxl(pr.GetAuditPath())), true)
+						} else {
+							s.op("varprove "+hx(varKey(name)), fmt.Sprintf("nproof %s ap=%s", head, hxl(pr.GetAuditPath())), true)
+						}
+					})
 				}
 			}
+			flush()
 		}
 	}
 }
@@ -626,9 +644,76 @@ func (w *cworld) accountMsg() {
 
 func contractProofs(run *vh.Run) {
 	w := buildContracts(run)
-	w.direct()
+	w.direct(w.csdb.GetStateDB(), "quiescent, at the latest root", true)
 	w.query()
 	w.accountMsg()
+	w.busy()
+}
+
+// mutate writes NEWER versions of most accounts and of their variables into the block state's buffers
+// (PutState / SetData / DeleteData / StageContractState), without Update or Commit.
+func (w *cworld) mutate(bs *state.BlockState) {
+	rng := w.run.Rng
+	for _, addr := range w.contracts {
+		if rng.Chance(1, 4) {
+			continue
+		}
+		cs, err := statedb.OpenContractStateAccount(addr, bs.StateDB)
+		if err != nil {
+			panic(err)
+		}
+		cs.State.Nonce = cs.State.GetNonce() + 100
+		cs.State.Balance = rng.Bytes(1 + rng.Intn(8))
+		for _, v := range w.vars {
+			switch rng.Intn(3) {
+			case 0:
+				cs.SetData(v, rng.Bytes(1+rng.Intn(40)))
+			case 1:
+				cs.DeleteData(v)
+			}
+		}
+		if err := statedb.StageContractState(cs, bs.StateDB); err != nil {
+			panic(err)
+		}
+		if err := bs.PutState(cs.GetAccountID(), cs.State); err != nil {
+			panic(err)
+		}
+	}
+}
+
+// busy asks the proof API on a StateDB that is NOT quiescent: the state of a block in execution (what luaGetDB does
+// with ctx.bs for a past block), with newer uncommitted versions of the accounts and variables in its buffers -
+// after PutState/SetData, after a rollback, after Update but before Commit, after Commit - always about COMMITTED
+// roots (the last one, older ones, and "latest" while the instance's trie root is still the last committed root).
+func (w *cworld) busy() {
+	bs := w.csdb.NewBlockState(w.csdb.GetRoot())
+	w.mutate(bs)
+	w.direct(bs.StateDB, "busy: newer versions put, no Update", true)
+	snap := bs.Snapshot()
+	w.mutate(bs)
+	if err := bs.Rollback(snap); err != nil {
+		panic(err)
+	}
+	w.direct(bs.StateDB, "busy: more put, rolled back", true)
+	if err := bs.Update(); err != nil {
+		panic(err)
+	}
+	w.direct(bs.StateDB, "busy: after Update, before Commit", false)
+	// observation only (not a committed state root, so outside the property): the "latest" root of this instance is now
+	// the UNCOMMITTED root; the states it commits to are not in the store before Commit (loadStateData gives an empty State)
+	for _, addr := range w.contracts {
+		id := types.ToAccountID(addr)
+		pr, err := bs.StateDB.GetAccountAndProof(id[:], nil, false)
+		if err != nil || pr == nil {
+			w.run.Count("observation (uncommitted root, outside C11): account proof between Update and Commit: error")
+			continue
+		}
+		w.run.Count(fmt.Sprintf("observation (uncommitted root, outside C11): account proof between Update and Commit verifies=%v", walletAcct(pr, id[:], bs.GetRoot(), false) == ""))
+	}
+	if err := bs.Commit(); err != nil {
+		panic(err)
+	}
+	w.direct(bs.StateDB, "after Commit of a newer block, asked about older roots", false)
 }
 
 // ---- scripted scenarios for the defect candidates of the contract-variable half (replayable by hand) ----
